@@ -179,25 +179,37 @@ func coqBytes(b []byte) string {
 	return "[" + strings.Join(items, ";") + "]%N"
 }
 
-// panicSite names the function of the code under test in which a recovered panic was
-// raised (first frame below the runtime that is not the harness).
+// panicSite names the hostd function in which a recovered panic was raised (the first
+// frame below the runtime that belongs to hostd and is not the harness; core's frame when
+// there is none).
 func panicSite() string {
 	pcs := make([]uintptr, 64)
 	n := runtime.Callers(3, pcs)
 	frames := runtime.CallersFrames(pcs[:n])
+	first := ""
 	for {
 		f, more := frames.Next()
 		fn := f.Function
-		if fn != "" && !strings.HasPrefix(fn, "runtime.") && !strings.Contains(fn, "verif") && !strings.Contains(fn, "Verif") && !strings.HasPrefix(fn, "testing.") {
-			if i := strings.LastIndex(fn, "/"); i >= 0 {
-				fn = fn[i+1:]
+		if fn != "" && !strings.HasPrefix(fn, "runtime.") && !strings.Contains(fn, "verif") && !strings.Contains(fn, "Verif") && !strings.Contains(fn, "c14") && !strings.HasPrefix(fn, "testing.") {
+			short := fn
+			if i := strings.LastIndex(short, "/"); i >= 0 {
+				short = short[i+1:]
 			}
-			return fn
+			if first == "" {
+				first = short
+			}
+			if strings.Contains(fn, "go.sia.tech/hostd/") {
+				return short
+			}
 		}
 		if !more {
-			return "unknown"
+			break
 		}
 	}
+	if first == "" {
+		return "unknown"
+	}
+	return first
 }
 
 // c14Data is program data with len = cap over a shared buffer: explicit prefix and suffix,
